@@ -69,7 +69,7 @@ def _gcall_engine(pid, tier, seed, known):
     return gcall.engine(pid, tier, seed, known)
 
 
-G_TRUST.append("Engine G (AST based, gcall.py): libawkward caller methods are executed symbolically with path conditions; objects the translator does not model are opaque (fresh values), class invariants are those listed in gcall.py (taken from the constructors' checks), preconditions of the virtual methods reduce_next/sort_next/argsort_next (outlength >= 0, negaxis >= 1) are assumed; only obligations that prove on the unchanged tree are counted (contracts/g_calls.json), the others are listed as g_call_undecided")
+G_TRUST.append("Engine G (AST based, gcall.py): libawkward caller methods are executed symbolically with path conditions; objects the translator does not model are opaque (fresh values), class invariants are those listed in gcall.py (taken from the constructors' checks; for ByteMaskedArray and BitMaskedArray additionally the length rules of validityerror(), i.e. *this is assumed valid), the length preconditions of the recursive virtual methods (VMETHODS: reduce_next/sort_next/argsort_next/getitem_next) and start <= stop for getitem_range_nowrap are assumed inside the method bodies and checked at the call sites found in libawkward (calls coming from src/python or from user code are not seen), the content-length model (carry, getitem_range_nowrap and the same-length conversions) is taken from the documented meaning of those methods, not proved; only obligations that prove on the unchanged tree are counted (contracts/g_calls.json), the others are listed as g_call_undecided")
 PLAN["C12"]["extra"] = [_builders_engine, _forth_engine, _gsite_engine, _gcall_engine, _combinations_engine]
 PLAN["C12"]["trusted"] = KERNEL_TRUST + _builders_mod.TRUSTED + _forth_mod.TRUSTED + G_TRUST
 
